@@ -2,6 +2,9 @@
 #define UTIL_PCQUEUE_H
 
 #include "util/exception.hh"
+#ifdef PREPROCESS_VERIF
+#include "util/verif_hooks.hh"
+#endif
 
 #include <algorithm>
 #include <cerrno>
@@ -93,6 +96,9 @@ class Semaphore {
   public:
     explicit Semaphore(unsigned int value) {
       UTIL_THROW_IF(sem_init(&sem_, 0, value), ErrnoException, "Could not create semaphore");
+#ifdef PREPROCESS_VERIF
+      if (pv_sem_init) pv_sem_init(this, value);
+#endif
     }
 
     ~Semaphore() {
@@ -103,12 +109,18 @@ class Semaphore {
     }
 
     void wait() {
+#ifdef PREPROCESS_VERIF
+      if (pv_sem_wait && pv_sem_wait(this)) return;
+#endif
       while (-1 == sem_wait(&sem_)) {
         UTIL_THROW_IF(errno != EINTR, ErrnoException, "Wait for semaphore failed");
       }
     }
 
     void post() {
+#ifdef PREPROCESS_VERIF
+      if (pv_sem_post && pv_sem_post(this)) return;
+#endif
       UTIL_THROW_IF(-1 == sem_post(&sem_), ErrnoException, "Could not post to semaphore");
     }
 
